@@ -77,7 +77,22 @@ RULE = (
     "CachingFileSystemLoader and a dict-based equivalent (matter defines `site`, which the "
     "environment may define too, and for one name `who`, which template globals / environment "
     "globals / render arguments may define too: render argument > matter > template globals > "
-    "environment globals).  Load-context routing: the 'tagroute' family runs the documented "
+    "environment globals).  Constructor arguments: the 'ctor' family builds "
+    "CachingFileSystemLoader with search_path as str / Path / list x encoding in {utf-8, "
+    "latin-1, utf-16, cp1252} x ext in {None, .liquid, .html}, and CachingChoiceLoader with a "
+    "mixed delegate list (a FileSystemLoader with encoding and ext + a DictLoader), against the "
+    "uncached loader built with the SAME arguments; sources contain non-ASCII text (e-acute, "
+    "sharp s, euro, CJK as far as the encoding allows) written in that encoding, names with and "
+    "without suffix; every history of length <= 2 and every load-modify-load over loads by name "
+    "or through a render tag, sync or async.  Held templates: in the 'held' family every load "
+    "KEEPS the Template it was given and later steps render a kept one again after other "
+    "callers' loads of the same key (with modify / unparsable source / delete in between, "
+    "eviction, another namespace, a second Environment); every history of length <= 4 ending "
+    "in such a render, sync and async (length 5 for two configurations), on dict, fs (auto_reload "
+    "on and off), ctx, choice-fs and front-matter loaders: a kept template renders its own "
+    "snapshot with the globals of the load that returned it; the only accepted exception is "
+    "the listed shared-template finding (a later HIT on the same entry re-points the object), "
+    "reported under that finding's key.  Load-context routing: the 'tagroute' family runs the documented "
     "SnippetsFileSystemLoader customisation (get_source serves include/render targets from "
     "snippets/, and a user keyword variant='alt' from alt/) over CachingFileSystemLoader and "
     "a dict-based equivalent against the same subclass of the uncached loader: every history "
@@ -146,6 +161,7 @@ M_FAMILIES = ("m-dict", "m-fs")
 T_FAMILIES = ("tag-dict", "tag-fs")  # async needs a real event loop
 NS_FAMILIES = ("ns-dict", "ns-choice", "ns-fs")
 P_FAMILIES = ("p-dict", "p-ctx", "p-choice", "p-fs")
+SHARED_TEMPLATE_KEY = "concurrent-globals:cold:aload(g).pause.render||aload(g).render"
 ENV_WHO = "envwho"  # environment-level global with the SAME name as the per-load global
 INJECT_KINDS = ("InjectedSourceError", "TemplateNotFoundError")
 
@@ -384,6 +400,17 @@ class Store:
     def body(self, place: str, name: str, version: int) -> str:
         return ref.body(place, name, version, self.with_site)
 
+    BROKEN = "{% if %}<unparsable>"
+
+    def break_(self, name: str) -> None:
+        """Replace the source by text that does not parse (newer mtime for files)."""
+        old = self.body
+        self.body = lambda place, n, v: Store.BROKEN  # type: ignore[method-assign]
+        try:
+            self.modify(name)
+        finally:
+            self.body = old  # type: ignore[method-assign]
+
     def consult(self) -> None:
         self.consults += 1
         if self.armed:
@@ -541,8 +568,9 @@ class _Files:
     future = 4_000_000_000
     neg = 0
 
-    def __init__(self) -> None:
+    def __init__(self, encoding: str = "utf-8") -> None:
         self.stamps: dict[str, float] = {}
+        self.encoding = encoding
 
     def _pick(self, path: str, mkind: int) -> float:
         c = _Files
@@ -569,12 +597,12 @@ class _Files:
         if rename:
             tmp = os.path.join(os.path.dirname(os.path.dirname(path)),
                                ".incoming-" + os.path.basename(path))
-            with open(tmp, "w", encoding="utf-8") as f:
+            with open(tmp, "w", encoding=self.encoding) as f:
                 f.write(text)
             os.utime(tmp, (t, t))
             os.replace(tmp, path)  # new inode
         else:
-            with open(path, "w", encoding="utf-8") as f:
+            with open(path, "w", encoding=self.encoding) as f:
                 f.write(text)
             os.utime(path, (t, t))
         self.stamps[path] = os.stat(path).st_mtime
@@ -944,6 +972,130 @@ class PFsStore(_PartialSources, FsStore):
     subdir = "pfs"
 
 
+def _needs_loop(family: str) -> bool:
+    return family in LOOP_FAMILIES or family.startswith("ctor-")
+
+
+def ctor_family(kind: str, enc: str, ext: str | None, pathkind: str = "str") -> str:
+    return f"ctor-{kind}/{enc}/{ext or 'no-ext'}/{pathkind}"
+
+
+class CtorFsStore(Store):
+    """CachingFileSystemLoader built with explicit constructor arguments — search_path as
+    str / Path / list, encoding, ext — against FileSystemLoader built with the SAME
+    arguments.  Sources contain non-ASCII text and are written in that encoding; names a
+    and b have no suffix (so `ext` applies), c.txt has one."""
+
+    has_fresh = True
+    names = ref.C_NAMES
+
+    def __init__(self, root: str, family: str) -> None:
+        super().__init__()
+        _, enc, ext, pathkind = family.split("/")
+        self.family = family
+        self.enc = enc
+        self.ext = None if ext == "no-ext" else ext
+        self.dir = os.path.join(root, family.replace("/", "_"))
+        self.extra = self.dir + "_empty"
+        os.makedirs(self.dir)
+        os.makedirs(self.extra)
+        self.files = _Files(enc)
+        self.dirty: set[str] = set(self.names)
+        self.chars = ref.C_CHARS[enc]
+        from pathlib import Path
+
+        self.search_path: Any = {
+            "str": self.dir, "Path": Path(self.dir), "list": [Path(self.extra), self.dir],
+        }[pathkind]
+        self.twin = self._twin()
+
+    def _twin(self) -> Any:
+        return K().FileSystemLoader(self.search_path, encoding=self.enc, ext=self.ext)
+
+    def _caching(self, cap: int, auto: bool, nskey: str) -> Any:
+        return K().FaultyFs(self.search_path, encoding=self.enc, ext=self.ext,
+                            auto_reload=auto, namespace_key=nskey, capacity=cap)
+
+    def body(self, place: str, name: str, version: int) -> str:
+        return ref.body(place + "-" + self.chars, name, version, self.with_site)
+
+    def _p(self, n: str) -> str:
+        if self.ext and "." not in n:
+            n += self.ext
+        return os.path.join(self.dir, n)
+
+    def reset(self) -> None:
+        self.armed = None
+        self.ver = {}
+        for n in self.dirty:
+            self.files.write(self._p(n), self.body("src", n, 0))
+        self.dirty = set()
+
+    def modify(self, name: str, mkind: int = 0, rename: int = 0) -> None:
+        self.dirty.add(name)
+        self.files.write(self._p(name), self.body("src", name, self._bump(name)), mkind, rename)
+
+    def delete(self, name: str) -> None:
+        self.dirty.add(name)
+        self.files.unlink(self._p(name))
+
+    def make_loader(self, cap: int, auto: bool, nskey: str) -> Any:
+        ld = self._caching(cap, auto, nskey)
+        ld.vf_store = self
+        return ld
+
+    def stamp(self, origin: str) -> object:
+        return self.files.stamps.get(origin)
+
+    def is_fresh(self, e: ref.Entry) -> bool:
+        return e.stamp is not None and self.files.stamps.get(e.origin) == e.stamp
+
+
+class CtorChoiceStore(CtorFsStore):
+    """CachingChoiceLoader whose delegate list mixes a FileSystemLoader (with encoding and
+    ext) and a DictLoader: a and b are files, c.txt lives in the dict."""
+
+    def __init__(self, root: str, family: str) -> None:
+        self.d: dict[str, str] = {}
+        super().__init__(root, family)
+
+    def _delegates(self) -> list[Any]:
+        k = K()
+        return [k.FileSystemLoader(self.search_path, encoding=self.enc, ext=self.ext),
+                k.DictLoader(self.d)]
+
+    def _twin(self) -> Any:
+        return K().ChoiceLoader(self._delegates())
+
+    def _caching(self, cap: int, auto: bool, nskey: str) -> Any:
+        return K().FaultyChoice(self._delegates(), auto_reload=auto, namespace_key=nskey,
+                                capacity=cap)
+
+    def reset(self) -> None:
+        self.armed = None
+        self.ver = {}
+        for n in self.dirty:
+            self._put(n, self.body("src", n, 0))
+        self.dirty = set()
+
+    def _put(self, n: str, text: str, mkind: int = 0, rename: int = 0) -> None:
+        if n == "c.txt":
+            self.d[n] = text
+        else:
+            self.files.write(self._p(n), text, mkind, rename)
+
+    def modify(self, name: str, mkind: int = 0, rename: int = 0) -> None:
+        self.dirty.add(name)
+        self._put(name, self.body("src", name, self._bump(name)), mkind, rename)
+
+    def delete(self, name: str) -> None:
+        self.dirty.add(name)
+        if name == "c.txt":
+            self.d.pop(name, None)
+        else:
+            self.files.unlink(self._p(name))
+
+
 class InlineExecutor(concurrent.futures.ThreadPoolExecutor):
     """run_in_executor without a thread hop (exhaustive file-system histories).
     (asyncio insists on a ThreadPoolExecutor instance; no worker thread is ever started.)"""
@@ -966,6 +1118,8 @@ def cfg_id(cfg: dict[str, Any]) -> str:
     s = f"{cfg['family']}/cap{cfg['cap']}/auto-{'on' if cfg['auto'] else 'off'}"
     if cfg.get("nskey", "ns") != "ns":
         s += f"/namespace-key={cfg['nskey']}" if cfg["nskey"] else "/no-namespace-key"
+    if cfg.get("held"):
+        s += "/held-templates"
     if cfg.get("site"):
         s += "/env-globals" + ("-same-name" if cfg["site"] == 2 else "")
     if cfg.get("inject", INJECT_KINDS[0]) != INJECT_KINDS[0]:
@@ -1055,6 +1209,10 @@ class Harness:
                 st = NsChoiceStore()
             elif family == "ns-fs":
                 st = NsFsStore(self.root)
+            elif family.startswith("ctor-fs/"):
+                st = CtorFsStore(self.root, family)
+            elif family.startswith("ctor-choice/"):
+                st = CtorChoiceStore(self.root, family)
             elif family == "m-dict":
                 st = MatterDictStore()
             elif family == "m-fs":
@@ -1101,7 +1259,7 @@ class Harness:
         """One load-and-render step on the real caching loader.  partial_tag: the load
         is made by a `render` / `include` tag of a parent template whose globals
         (*pglobals*) reach the loader through the render context."""
-        loop = self._loop() if (mode and family in LOOP_FAMILIES) else None
+        loop = self._loop() if (mode and _needs_loop(family)) else None
         ra = rargs or {}
         try:
             if partial_tag:
@@ -1118,7 +1276,7 @@ class Harness:
                     return await t.render_async(**ra)
 
                 coro = step()
-            if family in LOOP_FAMILIES:
+            if _needs_loop(family):
                 assert loop is not None
                 return ("ok", loop.run_until_complete(coro))
             return ("ok", sched.drive(coro))
@@ -1137,6 +1295,8 @@ class Harness:
         reference's after every step and reports a key-derivation disagreement."""
         if ref.is_p_family(cfg["family"]):
             return self._run_partials(cfg, ops, record=record, trace=trace)
+        if cfg.get("held"):
+            return self._run_held(cfg, ops, record=record, trace=trace)
         ctx = self.ctx
         family = cfg["family"]
         cap = cfg["cap"]
@@ -1319,6 +1479,180 @@ class Harness:
                     ctx.nt(cfg_id(cfg), tuple(ops))
         return None
 
+    # -- histories in which callers keep the Template they were given -----------------
+    def _run_held(
+        self, cfg: dict[str, Any], ops: list[Op] | tuple[Op, ...], *, record: bool,
+        trace: list[str] | None = None,
+    ) -> Divergence | None:
+        """Loads keep the returned Template; 'held' steps render a kept one again later.
+        Reference: a kept template renders its own snapshot with the globals of the load
+        that returned it, whatever other callers load afterwards.  The one exception is
+        the listed finding: a later HIT on the same cache entry re-points the shared object
+        (reported under that finding's key, the history goes on)."""
+        ctx = self.ctx
+        family = cfg["family"]
+        cap = cfg["cap"]
+        auto = cfg["auto"]
+        nskey = cfg.get("nskey", "ns")
+        site_i = int(cfg.get("site") or 0)
+        site = "S" if site_i else None
+        env_who = ENV_WHO if site_i == 2 else None
+        st = self.store(family)
+        st.reset()
+        env_a, env_b = self.envs[site_i], self.envs_b[site_i]
+        loader = st.make_loader(cap, auto, nskey)
+        env_a.loader = loader
+        env_b.loader = loader
+        tenv = self.twin_envs[site_i]
+        model = ref.RefLRU(cap)
+        self.last_loader, self.last_model = loader, model
+        twin = st.twin
+        kept: list[Any] = []  # real Template objects (None: that load failed)
+        handles: list[tuple[ref.Entry, object] | None] = []  # (model entry, who at load)
+        saw_hit = saw_miss = saw_other = False
+
+        def run(coro_or_none: Any, fn: Callable[[], str], mode: int) -> tuple[str, str]:
+            try:
+                if not mode:
+                    return ("ok", fn())
+                if _needs_loop(family):
+                    return ("ok", self._loop().run_until_complete(coro_or_none()))
+                return ("ok", sched.drive(coro_or_none()))
+            except Exception as e:  # noqa: BLE001
+                return ("err", type(e).__name__)
+
+        for i, op in enumerate(ops):
+            if op.kind in ("modify", "delete", "break"):
+                saw_other = True
+                nm = st.names[op.name]
+                if op.kind == "modify":
+                    st.modify(nm, op.g, op.via)
+                elif op.kind == "delete":
+                    st.delete(nm)
+                else:
+                    st.break_(nm)
+                if trace is not None:
+                    trace.append(f"  step {i}: {op.kind} {nm}")
+                continue
+            if op.kind == "held":
+                if op.name >= len(kept) or kept[op.name] is None or handles[op.name] is None:
+                    if trace is not None:
+                        trace.append(f"  step {i}: (no template kept from load #{op.name})")
+                    continue
+                t = kept[op.name]
+                ent, who0 = handles[op.name]  # type: ignore[misc]
+                exp = ("ok", ref.render_with_matter(ent.source, None, who0, None, site))
+                obs = run(lambda t=t: t.render_async(), lambda t=t: t.render(), op.mode)
+                if record:
+                    ctx.ev()
+                    ctx.count("held_renders_compared")
+                if trace is not None:
+                    trace.append(f"  step {i}: {ref.show_op(op, family)} expected={exp} "
+                                 f"observed={obs} (entry last bound to {ent.bound!r})")
+                if obs != exp:
+                    repointed = ("ok", ref.render_with_matter(ent.source, None, ent.bound, None, site))
+                    if ent.bound != who0 and obs == repointed:
+                        # the listed finding: the cached object is shared, a later hit on
+                        # the same entry gave it that caller's globals
+                        if record:
+                            ctx.count("held_repointed_by_later_hit")
+                            ctx.violation(SHARED_TEMPLATE_KEY,
+                                          f"[{cfg_id(cfg)}] a kept template rendered {obs[1]!r} "
+                                          f"(expected {exp[1]!r}) after a later cache hit on its entry",
+                                          {"kind": "history", "cfg": dict(cfg),
+                                           "ops": [o.j() for o in ops[: i + 1]],
+                                           "readable": [ref.show_op(o, family) for o in ops[: i + 1]],
+                                           "origin": "held"})
+                        continue
+                    return Divergence(i, "kept-template-changed",
+                                      f"a kept template rendered {obs[1]!r}, expected {exp[1]!r}: a later "
+                                      "load that did not hit its cache entry changed it", {
+                                          "step": i, "op": ref.show_op(op, family),
+                                          "expected": exp, "observed": obs})
+                continue
+            # ---- load (keeps the template) and render
+            name = st.names[op.name]
+            env = env_b if op.env else env_a
+            has_ns = op.ns != 0
+            ns = st.ns_values[op.ns - 1] if has_ns else None
+            tmpl_who = f"u{i}" if op.g else None
+            who = tmpl_who or env_who
+            g = {"who": tmpl_who} if tmpl_who else None
+            kw: dict[str, Any] = {"ns": ns} if has_ns else {}
+            try:
+                ts = twin.get_source(env, name, **kw)
+                tenv.from_string(ts.source)  # the uncached loader parses on every load
+                now: tuple[Any, ...] = ("ok", ref.with_matter(ts.source, ts.matter), ts.name,
+                                        st.stamp(ts.name))
+            except Exception as e:  # noqa: BLE001
+                now = ("err", type(e).__name__)
+            key = f"{ns}/{name}" if (nskey and has_ns) else name
+            alts = ref.expect_load(
+                model, key, now, step=i, auto_reload=auto, has_fresh=st.has_fresh,
+                is_fresh=st.is_fresh, armed=None, env_tag=op.env,
+            )
+            box: list[Any] = [None]
+
+            def sync_load(box: list[Any] = box, env: Any = env, name: str = name, g: Any = g,
+                          kw: dict[str, Any] = kw) -> str:
+                box[0] = env.get_template(name, globals=g, **kw)
+                return box[0].render()
+
+            async def async_load(box: list[Any] = box, env: Any = env, name: str = name,
+                                 g: Any = g, kw: dict[str, Any] = kw) -> str:
+                box[0] = await env.get_template_async(name, globals=g, **kw)
+                return await box[0].render_async()
+
+            obs = run(async_load, sync_load, op.mode)
+            matched = None
+            exps = []
+            for a in alts:
+                e2 = (("ok", ref.render_with_matter(a.outcome[1], None, tmpl_who, env_who, site))
+                      if a.outcome[0] == "ok" else a.outcome)
+                exps.append(e2)
+                if obs == e2:
+                    matched = a
+                    break
+            if record:
+                ctx.ev()
+            if trace is not None:
+                trace.append(f"  step {i}: {ref.show_op(op, family)} key={key} expected={exps} "
+                             f"observed={obs} model(before)={model.view()}")
+            if matched is None:
+                cat, what = self.classify(cfg, model, key, name, ns, model.get(key) is not None,
+                                          now, alts[0], exps[0], obs, who, site)
+                return Divergence(i, cat, what, {"step": i, "op": ref.show_op(op, family),
+                                                 "expected": exps, "observed": obs})
+            matched.commit()
+            ev = matched.event
+            if ev.startswith("hit"):
+                saw_hit = True
+            elif ev in ("miss", "reload", "reload-other-env"):
+                saw_miss = True
+            if record:
+                ctx.count("ev:" + ev)
+            if matched.outcome[0] == "ok":
+                ent2 = model.get(key)
+                assert ent2 is not None
+                ent2.bound = who
+                kept.append(box[0])
+                handles.append((ent2, who))
+            else:
+                kept.append(None)
+                handles.append(None)
+            if len(loader.cache) > cap:
+                return Divergence(i, "capacity-exceeded",
+                                  f"len(loader.cache)={len(loader.cache)} > capacity={cap}",
+                                  {"step": i})
+        if record:
+            ctx.count("loads_compared", sum(1 for o in ops if o.kind == "load"))
+            if saw_hit and saw_miss and saw_other:
+                ctx.count("nontrivial_histories")
+                self._ntc += 1
+                if self._ntc % self.nt_mod == 0:
+                    ctx.nt(cfg_id(cfg), tuple(ops))
+        return None
+
     # -- histories whose templates load other templates ----------------------------
     def _run_partials(
         self, cfg: dict[str, Any], ops: list[Op] | tuple[Op, ...], *, record: bool,
@@ -1445,7 +1779,7 @@ class Harness:
     # -- classification ---------------------------------------------------------
     def classify(self, cfg, model, key, name, ns, was_resident, now, alt0, exp0, obs,  # noqa: ANN001
                  who, site) -> tuple[str, str]:  # noqa: ANN001
-        fam = cfg["family"]
+        fam = cfg["family"].split("/")[0]  # ctor-fs/<enc>/<ext>/<path kind> -> ctor-fs
         if obs[0] == "err" and exp0[0] == "ok":
             return (f"error-class:{obs[1]}-instead-of-ok@{fam}",
                     f"load raised {obs[1]} where the uncached twin (or the resident snapshot) "
@@ -1503,7 +1837,7 @@ class Harness:
     # -- minimisation + keys ------------------------------------------------------
     def fails(self, cfg: dict[str, Any], ops: list[Op]) -> str | None:
         """Category if the history diverges exactly at its last step."""
-        if not ops or ops[-1].kind != "load":
+        if not ops or ops[-1].kind not in ("load", "held"):
             return None
         self.ctx.count("minimiser_runs")
         d = self.run_history(cfg, ops, record=False, diag=self.diag)
@@ -1873,6 +2207,49 @@ def tagroute_expected() -> int:
         1 for ln in range(1, TAGROUTE_LEN + 1) for _ in ref.tagroute_histories(ln))
 
 
+def held_configs() -> list[tuple[dict[str, Any], bool, int]]:
+    """(cfg, namespaces?, length enumerated all-sync beyond the common 4)."""
+    base = {"held": 1}
+    return [
+        ({"family": "dict", "cap": 1, "auto": True, **base}, False, 5),
+        ({"family": "dict", "cap": 2, "auto": True, "site": 2, **base}, False, 4),
+        ({"family": "fs", "cap": 1, "auto": True, **base}, False, 5),
+        ({"family": "fs", "cap": 2, "auto": True, **base}, False, 4),
+        ({"family": "fs", "cap": 2, "auto": False, **base}, False, 4),
+        ({"family": "ctx", "cap": 2, "auto": True, **base}, True, 4),
+        ({"family": "choice-fs", "cap": 2, "auto": True, **base}, False, 4),
+        ({"family": "m-fs", "cap": 2, "auto": True, **base}, False, 4),
+    ]
+
+
+def held_items(with_ns: bool, maxlen: int) -> Iterator[tuple[Op, ...]]:
+    for ln in range(2, maxlen + 1):
+        for ops in ref.held_histories(ln, with_ns):
+            yield ref.with_mode(ops, 0)
+            if ln <= 4:
+                yield tuple(o._replace(mode=1) if o.kind in ("load", "held") else o for o in ops)
+
+
+def held_expected() -> int:
+    return sum(sum(1 for _ in held_items(w, m)) for _, w, m in held_configs())
+
+
+def ctor_configs() -> list[dict[str, Any]]:
+    """Every documented constructor argument that has an uncached counterpart."""
+    out = []
+    for enc in ref.C_ENCODINGS:
+        for ext in ref.C_EXTS:
+            for pk in ref.C_PATHKINDS:
+                out.append({"family": ctor_family("fs", enc, ext, pk), "cap": 2, "auto": True})
+        for ext in (None, ".liquid"):
+            out.append({"family": ctor_family("choice", enc, ext), "cap": 2, "auto": True})
+    return out
+
+
+def ctor_expected() -> int:
+    return len(ctor_configs()) * sum(1 for _ in ref.ctor_histories())
+
+
 def locals_configs() -> list[dict[str, Any]]:
     return [{"family": "p-ctx", "cap": 2, "auto": True}, {"family": "p-ctx", "cap": 3, "auto": True},
             {"family": "p-dict", "cap": 3, "auto": True}]
@@ -1934,6 +2311,12 @@ def shards(tier: str, seed: int) -> list[dict[str, Any]]:  # noqa: ARG001
         specs.append({"kind": "globals", "cfg": cfg})
     for cfg in locals_configs():
         specs.append({"kind": "locals", "cfg": cfg})
+    for k in range(len(held_configs())):
+        specs.append({"kind": "held", "k": k})
+    cc = ctor_configs()
+    ncc = 4 if tier == "quick" else 8
+    for i in range(ncc):
+        specs.append({"kind": "ctor", "cfgs": cc[i::ncc]})
     for cfg in tagroute_configs():
         nt2 = 2 if cfg["family"] == "tag-fs" else 1
         for i in range(nt2):
@@ -1969,6 +2352,10 @@ def floors(tier: str) -> dict[str, int]:
             "ev:tag-load": 100_000,
             "globals_histories_done": 38_192,
             "locals_histories_done": 13_968,
+            "ctor_histories_done": 29_040,
+            "held_histories_done": 35_602,
+            "held_renders_compared": 30_000,
+            "set:ctor_configs": 44,
             "tagroute_histories_done": 25_248,
             "ev:reload-other-env": 500,
             "set:nsval_value_pairs": 110,
@@ -2003,6 +2390,10 @@ def floors(tier: str) -> dict[str, int]:
         "ev:tag-load": 1_000_000,
         "globals_histories_done": 38_192,
             "locals_histories_done": 13_968,
+            "ctor_histories_done": 29_040,
+            "held_histories_done": 35_602,
+            "held_renders_compared": 30_000,
+            "set:ctor_configs": 44,
         "tagroute_histories_done": 25_248,
         "ev:reload-other-env": 5_000,
         "set:nsval_value_pairs": 110,
@@ -2040,6 +2431,10 @@ def exhaustive(tier: str, merged: dict[str, Any]) -> bool:
     if merged["counters"].get("tagroute_histories_done", 0) != tagroute_expected():
         return False
     if merged["counters"].get("locals_histories_done", 0) != locals_expected():
+        return False
+    if merged["counters"].get("ctor_histories_done", 0) != ctor_expected():
+        return False
+    if merged["counters"].get("held_histories_done", 0) != held_expected():
         return False
     return got == want and not merged.get("truncated") and not merged.get("failed")
 
@@ -2079,6 +2474,10 @@ def run_shard(spec: dict[str, Any], ctx: Ctx) -> None:
             _tagroute(h, spec, ctx)
         elif kind == "locals":
             _locals(h, spec, ctx)
+        elif kind == "ctor":
+            _ctor(h, spec, ctx)
+        elif kind == "held":
+            _held(h, spec, ctx)
         elif kind == "random":
             _random(h, spec, ctx)
         else:
@@ -2219,6 +2618,40 @@ def _globals(h: Harness, spec: dict[str, Any], ctx: Ctx) -> None:
     if last is not None:
         ctx.sample({"kind": "globals", "cfg": cfg_id(cfg),
                     "history": [ref.show_op(o, cfg["family"]) for o in last]})
+
+
+def _held(h: Harness, spec: dict[str, Any], ctx: Ctx) -> None:
+    """Callers keep the Template they were given and render it again after other loads."""
+    cfg, with_ns, maxlen = held_configs()[spec["k"]]
+    ctx.seen("configs", cfg_id(cfg))
+    last = None
+    for k, ops in enumerate(held_items(with_ns, maxlen)):
+        if k & 255 == 0:
+            ctx.check_deadline()
+        _run_and_report(h, cfg, ops, ctx, "held", only_last=True)
+        ctx.count("held_histories_done")
+        last = ops
+    if last is not None:
+        ctx.sample({"kind": "held", "cfg": cfg_id(cfg),
+                    "history": [ref.show_op(o, cfg["family"]) for o in last]})
+
+
+def _ctor(h: Harness, spec: dict[str, Any], ctx: Ctx) -> None:
+    """Constructor arguments: the caching loader and the uncached one built with the same
+    search_path kind / encoding / ext / delegate list, over non-ASCII sources."""
+    last = None
+    for cfg in spec["cfgs"]:
+        ctx.seen("configs", cfg_id(cfg))
+        ctx.seen("ctor_configs", cfg["family"])
+        for k, ops in enumerate(ref.ctor_histories()):
+            if k & 255 == 0:
+                ctx.check_deadline()
+            _run_and_report(h, cfg, ops, ctx, "ctor", only_last=True)
+            ctx.count("ctor_histories_done")
+            last = (cfg, ops)
+    if last is not None:
+        ctx.sample({"kind": "ctor", "cfg": cfg_id(last[0]),
+                    "history": [ref.show_op(o, last[0]["family"]) for o in last[1]]})
 
 
 def _locals(h: Harness, spec: dict[str, Any], ctx: Ctx) -> None:
@@ -2392,7 +2825,9 @@ def _random_t_history(rng: random.Random, length: int) -> list[Op]:
     return ops
 
 
-RANDOM_FAMILIES = (*FAMILIES, "fs-multi", *NS_FAMILIES, *P_FAMILIES, *T_FAMILIES, *M_FAMILIES)
+RANDOM_FAMILIES = (*FAMILIES, "fs-multi", *NS_FAMILIES, *P_FAMILIES, *T_FAMILIES, *M_FAMILIES,
+                   "ctor-fs/latin-1/.liquid/list", "ctor-fs/utf-16/no-ext/Path",
+                   "ctor-choice/cp1252/.liquid/str")
 
 
 def _random(h: Harness, spec: dict[str, Any], ctx: Ctx) -> None:
